@@ -54,6 +54,8 @@ Record rec := mkR {
   r_spos : list fv;         (* sigma x y z in metres *)
   r_sclk : fv;              (* metres *)
   r_sys : string;
+  r_codes : list Z;         (* the four accuracy exponents as read (0 when blank); the comparison with doubles needs them:
+                               float(base) ** n carries the rounding error of the base n times *)
 }.
 
 Record state := mkS {
@@ -160,6 +162,12 @@ Definition sigma_value (Qk : quirks) (base : Q) (unit : Q) (text : string) : opt
          end
   end.
 
+Definition code_of (text : string) : Z :=
+  match text with
+  | "" => 0%Z
+  | _ => match parse_float text with Some c => (Qnum c / Zpos (Qden c))%Z | None => 0%Z end
+  end.
+
 Definition opt_list {A} (l : list (option A)) : option (list A) :=
   fold_right (fun x acc => match x, acc with Some a, Some r => Some (a :: r) | _, _ => None end) (Some []) l.
 
@@ -178,7 +186,9 @@ Definition position_record (Qk : quirks) (m : meta) (time : string) (vals : list
       | Some sp, Some sc =>
           match sat with
           | "" => None
-          | String c _ => Some (mkR time sat pos clk sp sc (String c ""))
+          | String c _ => Some (mkR time sat pos clk sp sc (String c "")
+                                    [code_of (get "sig_pos_x"); code_of (get "sig_pos_y"); code_of (get "sig_pos_z");
+                                     code_of (get "sig_clk_bias")])
           end
       | _, _ => None
       end
@@ -291,9 +301,17 @@ Definition rec_main_ok (e : rec) (o : orec) : bool :=
   let '(OR t sat x y z clk _ _ _ _ sys) := o in
   String.eqb (r_time e) t && String.eqb (r_sat e) sat && String.eqb (r_sys e) sys &&
   all2 (fv_close 2) (r_pos e) [x; y; z] && fv_close 3 (r_clk e) clk.
+(* accuracies: float(base) ** n is within about n/2 + 2 ulps of base^n (the base is rounded once, the power multiplies
+   that relative error by n; then two more roundings); the check allows |n| + 4 ulps *)
+Fixpoint all3 {A B C} (f : A -> B -> C -> bool) (a : list A) (b : list B) (c : list C) : bool :=
+  match a, b, c with
+  | [], [], [] => true
+  | x :: a', y :: b', z :: c' => f x y z && all3 f a' b' c'
+  | _, _, _ => false
+  end.
 Definition rec_sigma_ok (e : rec) (o : orec) : bool :=
   let '(OR _ _ _ _ _ _ sx sy sz sc _) := o in
-  all2 (fv_close 4) (r_spos e) [sx; sy; sz] && fv_close 4 (r_sclk e) sc.
+  all3 (fun n v d => fv_close (Z.abs n + 4) v d) (r_codes e) (r_spos e ++ [r_sclk e])%list [sx; sy; sz; sc].
 
 Definition mval_ok (e : mval) (o : oval) : bool :=
   match e, o with
